@@ -28,7 +28,9 @@ pub fn drain_in_child(case: &EnumCase) -> Report {
     };
     drive::reset_budget();
     let product = cfg.product();
-    let bound: u64 = if product < (u64::MAX / 4096) as u128 { (product as u64).saturating_mul(1176).saturating_add(16) } else { 0 };
+    // empty ranges count as one entry in the bound: showdowns dealt around an empty seat are judged as showdowns
+    let bound_product: u128 = cfg.ranges.iter().fold(1u128, |a, r| a.saturating_mul(r.len().max(1) as u128));
+    let bound: u64 = if bound_product < (u64::MAX / 4096) as u128 { (bound_product as u64).saturating_mul(1176).saturating_add(16) } else { 0 };
     let any_empty = cfg.ranges.iter().any(|r| r.is_empty());
     let stats = drive::install_stats_sink(bound);
     let mut yielded = 0u64;
